@@ -751,6 +751,42 @@ func (ev *evaluator) callExpr(n *ast.CallExpr) *Val {
 				kk = ev.x.mapKey(ev.st, k.T, mt.Key())
 			}
 			return &Val{T: And(Neq(m.T, IntLit(0)), Select(dom, kk)), Typ: boolT}
+		case "mapput", "mapdel", "mapsame", "mapisempty":
+			// the content of map m now, relative to its content at function entry (maps are updated in place):
+			//   mapput(m, k, v): the old content with k -> v;  mapdel(m, k): the old content without k;
+			//   mapsame(m): unchanged;  mapisempty(m): no keys at all
+			m := ev.ev(n.Args[0])
+			mt, ok := m.Typ.Underlying().(*types.Map)
+			if !ok {
+				ev.errorf("%s on %s", id.Name, m.Typ)
+			}
+			_, _, doms, vals := ev.x.mapSorts(mt)
+			rd := func(st *State) (*Term, *Term, *Term) {
+				return ev.x.ctx.hread(st, mapDomName(mt), doms, m.T), ev.x.ctx.hread(st, mapValName(mt), vals, m.T), ev.x.ctx.hread(st, mapSizeName(mt), SInt, m.T)
+			}
+			dn, vn, sn := rd(ev.st)
+			do, vo, so := rd(ev.fr.entry)
+			switch id.Name {
+			case "mapisempty":
+				return &Val{T: And(Neq(m.T, IntLit(0)), Eq(dn, ConstArr(doms, False)), Eq(sn, IntLit(0))), Typ: boolT}
+			case "mapsame":
+				return &Val{T: And(Eq(dn, do), Eq(vn, vo), Eq(sn, so)), Typ: boolT}
+			}
+			k := ev.ev(n.Args[1])
+			ev.own()
+			kk := ev.x.mapKey(ev.st, k.T, mt.Key())
+			if id.Name == "mapdel" {
+				return &Val{T: And(Eq(dn, Store(do, kk, False)), Eq(vn, vo), Eq(sn, Ite(Select(do, kk), Sub(so, IntLit(1)), so))), Typ: boolT}
+			}
+			v := ev.ev(n.Args[2])
+			return &Val{T: And(Eq(dn, Store(do, kk, True)), Eq(vn, Store(vo, kk, v.T)), Eq(sn, Ite(Select(do, kk), so, Add(so, IntLit(1))))), Typ: boolT}
+		case "writes":
+			// ghost state of the file system model (A-FS): number of os.WriteFile calls so far, path and data of the last one
+			return &Val{T: ev.x.ctx.hread(ev.st, ghostWrites, SInt, IntLit(0)), Typ: intT}
+		case "lastpath":
+			return &Val{T: ev.x.ctx.hread(ev.st, ghostLastPath, SStr, IntLit(0)), Typ: types.Typ[types.String]}
+		case "lastdata":
+			return &Val{T: ev.x.ctx.hread(ev.st, ghostLastData, SStr, IntLit(0)), Typ: types.Typ[types.String]}
 		case "streq":
 			a := ev.ev(n.Args[0])
 			b := ev.ev(n.Args[1])
@@ -1043,6 +1079,9 @@ func (ev *evaluator) modTarget(m *ModLoc) (string, *Term, bool) {
 				v := ev.ev(n.Args[0])
 				mt := v.Typ.Underlying().(*types.Map)
 				return mapDomName(mt), v.T, false
+			case "disk":
+				// the ghost file system (write counter; last path and data follow, see expandMod)
+				return ghostWrites, IntLit(0), false
 			}
 		}
 	}
